@@ -46,7 +46,7 @@ pub struct TypedGen<'a> {
     pub excluded: u64,
 }
 
-const TS_LITERALS: [&str; 5] = ["2020-09-13 12:26:40", "2021-04-01 00:00:00", "2021-04-01 01:00:59", "1999-12-31 23:59:59", "2021-10-18 13:26:40"];
+const TS_LITERALS: [&str; 6] = ["2020-09-13 12:26:40", "2021-04-01 00:00:00", "2021-04-01 01:00:59", "1999-12-31 23:59:59", "2021-10-18 13:26:40", "2021-06-01 12:00:60"];
 const IV_LITERALS: [&str; 5] = ["0:00:00", "0:00:05", "1:00:00", "2:03:04", "25:00:00"];
 const IV_HAZARDS: [&str; 4] = ["99999999999999:00:00", "0:999999999999999999:0", "0:0:9223372036854775807", "2562047788015215:30:07"];
 
